@@ -474,6 +474,7 @@ struct Extractor : public RecursiveASTVisitor<Extractor> {
       json::Object O;
       O["e"] = "co_return";
       O["loc"] = Loc(X);
+      if (X->isImplicit()) O["implicit"] = true;
       if (X->getOperand()) O["x"] = ser(X->getOperand(), 1);
       Ev.push_back(std::move(O));
       return;
